@@ -222,6 +222,38 @@ FoldIdx == [f : {"fold"}, op : 1..Len(FoldOps), a : 1..Len(FoldVals), b : 1..Len
 \* does the constant expression itself raise an error when evaluated (the optimizer may then refuse the script)
 FoldRaises(c) == LET r == RunP(P0(<<Ret(Bin(FoldOps[c.op], FoldVals[c.a], FoldVals[c.b]))>>)) IN r.o[1] = "thr"
 
+(* ------------------------------------ C02: scope structures, combinatorially *)
+\* Every arrangement of declarations / assignments / reads of the names a, b and len (also a builtin)
+\* around and inside one container - a block, a function, a loop body, nestings of two of them, a
+\* function called twice: which declaration a name means, which variable a closure captures, that a
+\* declaration executed again is a new variable, that slots of dead block variables are re-used without
+\* being seen.  Each declaration stores a number of its own, so the logged reads identify the variable.
+ScLeaf(k, base) == CASE k = 1 -> Def("a", I(base + 1)) [] k = 2 -> Def("b", I(base + 2)) [] k = 3 -> Def("len", I(base + 3))
+                     [] k = 4 -> Asg("a", Bin("+", Id("a"), I(100))) [] k = 5 -> Asg("b", Bin("+", Id("b"), I(100)))
+                     [] k = 6 -> Log(Id("a")) [] k = 7 -> Log(Id("b")) [] k = 8 -> Log(C1(Id("typeName"), Id("len")))
+\* a body of up to two leaf statements: <<>>, <<k>>, <<k1, k2>>
+ScBody(q, base) == IF q[1] = 0 THEN <<>> ELSE IF q[2] = 0 THEN <<ScLeaf(q[1], base)>> ELSE <<ScLeaf(q[1], base), ScLeaf(q[2], base + 5)>>
+ScBodies == {<<0, 0>>} \cup {<<k, 0>> : k \in 1..8} \cup {<<k1, k2>> : k1 \in 1..8, k2 \in 1..8}
+ScPre == {<<0, 0>>, <<1, 0>>, <<2, 0>>, <<3, 0>>, <<1, 2>>, <<8, 3>>}
+ScMid == {<<0, 0>>, <<1, 0>>, <<6, 0>>, <<4, 0>>}
+ScPost == {<<6, 0>>, <<7, 0>>, <<8, 0>>, <<6, 7>>}
+ScWrap(kind, mid, inner) ==
+  CASE kind = 1 -> <<If(T, mid \o inner, <<>>)>>
+    [] kind = 2 -> <<Def("f", Fn0(mid \o inner)), ExprS(C0(Id("f")))>>
+    [] kind = 3 -> <<Def("f", Fn0(mid \o <<If(T, inner, <<>>)>>)), ExprS(C0(Id("f")))>>
+    [] kind = 4 -> <<If(T, mid \o <<Def("f", Fn0(inner)), ExprS(C0(Id("f")))>>, <<>>)>>
+    [] kind = 5 -> <<Def("f", Fn0(mid \o <<Def("g", Fn0(inner)), ExprS(C0(Id("g")))>>)), ExprS(C0(Id("f")))>>
+    [] kind = 6 -> <<For(<<Def("i", I(0))>>, Bin("<", Id("i"), I(2)), <<Inc("i")>>, mid \o inner)>>
+    [] kind = 7 -> <<Def("f", Fn0(mid \o inner)), ExprS(C0(Id("f"))), ExprS(C0(Id("f")))>>
+ScProg(c) == ScBody(c.pre, 10) \o ScWrap(c.kind, ScBody(c.mid, 20), ScBody(c.inner, 30)) \o ScBody(c.post, 50) \o <<Ret(I(0))>>
+ScIdx == [f : {"scope"}, kind : 1..7, pre : ScPre, mid : ScMid, inner : ScBodies, post : ScPost]
+\* only programs every name of which is declared where it is used (the others are compile errors)
+\* two declarations of one name in the same scope are a compile error ("redeclared in this block")
+ScDefs(q) == {q[i] : i \in {j \in 1..2 : q[j] \in 1..3}}
+ScNoRedecl(c) == /\ ~(c.inner[1] \in 1..3 /\ c.inner[1] = c.inner[2])
+                 /\ (c.kind \in {1, 2, 6, 7} => ScDefs(c.mid) \cap ScDefs(c.inner) = {})
+ScValid(c) == ScNoRedecl(c) /\ LET r == RunP(P0(ScProg(c))) IN ~(r.o[1] = "thr" /\ r.o[2].name \in {"unresolved", "unmodelled-op", "unmodelled-builtin-call", "TypeError"})
+
 (* ------------------------------- C01: constant expressions beyond the reference *)
 \* Expressions the optimizer may evaluate at compile time but the reference fragment does not model:
 \* unary operators, builtin calls with constant arguments (incl. the printing ones), indexing /
@@ -560,6 +592,7 @@ AllIdx == ListIdx
           \cup (IF "fold" \in Fams THEN FoldIdx ELSE {})
           \cup (IF "cond" \in Fams THEN CondIdx ELSE {})
           \cup (IF "xfold" \in Fams THEN XIdxSet ELSE {})
+          \cup (IF "scope" \in Fams THEN ScIdx ELSE {})
           \cup (IF "dis" \in Fams THEN DisIdx \cup DisModIdx ELSE {})
           \cup (IF "mod" \in Fams THEN ModIdx ELSE {})
           \cup (IF "frag" \in Fams THEN FragIdx ELSE {})
@@ -574,6 +607,7 @@ ProgOf(c) == CASE c.f \in {"closure", "assign", "const", "catchvar"} -> P0(FamSe
                [] c.f = "fold" -> P0(FoldProg(c))
                [] c.f = "cond" -> P0(CondProg(c))
                [] c.f = "xfold" -> P0(XProg(c))
+               [] c.f = "scope" -> P0(ScProg(c))
                [] c.f = "dis" -> [P0(ShadowProg(c.nm, c.i)) EXCEPT !.disabled = c.d]
                [] c.f = "dismod" -> [DisModProg(c) EXCEPT !.disabled = c.d]
                [] c.f = "mod" -> ModProg(c)
@@ -590,7 +624,7 @@ Next == Judge
 Spec == Init /\ [][Next]_vars
 
 \* the reference semantics is total on the families (no unmodelled construct, no divergence)
-Modelled == (ph = 1 /\ c.f # "frag" /\ ~(c.f = "mod" /\ ModRefused(c))) => LET r == RunP(ProgOf(c)) IN
+Modelled == (ph = 1 /\ c.f # "frag" /\ ~(c.f = "mod" /\ ModRefused(c)) /\ ~(c.f = "scope" /\ ~ScValid(c))) => LET r == RunP(ProgOf(c)) IN
               (ProgRefs(ProgOf(c)) \cap ProgOf(c).disabled = {}) =>
               ~(r.o[1] = "thr" /\ r.o[2].name \in {"unmodelled-builtin-call", "diverge", "unresolved"})
 \* a script that never mentions a disabled builtin as a builtin behaves as without the disabled set
@@ -609,7 +643,7 @@ FoldExprKnown(cc) == ~IsRawE(FoldVals[cc.a]) /\ ~IsRawE(FoldVals[cc.b]) /\ RefKn
 NoExp == [o |-> <<"ret", VUndef>>, log |-> <<>>, globals |-> <<>>]
 ExportFrag == (ph = 1 /\ c.f = "frag") =>
    CSVWrite("%1$s", <<ToJson([fam |-> c.f, id |-> [f |-> c.f, s |-> c.s, cut |-> c.cut], prog |-> ProgOf(c), frag |-> FragExp(c)])>>, IOEnv.OUT)
-Export == (ph = 1 /\ c.f # "frag") => LET p == ProgOf(c)  mref == (c.f = "mod" /\ ModRefused(c)) IN
+Export == (ph = 1 /\ c.f # "frag" /\ (c.f = "scope" => ScValid(c))) => LET p == ProgOf(c)  mref == (c.f = "mod" /\ ModRefused(c)) IN
    CSVWrite("%1$s", <<ToJson([fam |-> c.f, id |-> c, prog |-> p, exp |-> (IF mref THEN NoExp ELSE RunP(p)), modrefused |-> mref,
                               mayrefuse |-> (c.f = "xfold" \/ (c.f = "fold" /\ FoldRaises(c))),
                               refknown |-> (IF c.f = "xfold" THEN FALSE ELSE IF c.f = "fold" THEN FoldExprKnown(c) ELSE IF mref THEN TRUE ELSE RefKnown(p)),
